@@ -14,6 +14,11 @@ Definition signer_ok (sg : option signer) : Prop :=
 Definition data_fits (nm : name) (cfg : dconfig) (content : option (list bytes)) (si : option siginfo) (est : N) : Prop :=
   data_len (mkData (Some nm) (Some (meta_of cfg)) content si None) est + 10 < big.
 
+(* the domain of the duration fields: every whole number of milliseconds of either sign that fits int64 nanoseconds
+   (0 ms, 2^32 ms, 9223372036854 ms, negative values) *)
+Lemma dur_wf_whole_ms (ms : Z) : (-9223372036854 <= ms <= 9223372036854)%Z -> dur_wf (ms * 1000000).
+Proof. intros H. unfold dur_wf, two63z. split; [apply Z.mod_mul; lia|lia]. Qed.
+
 Lemma uint64_of_bound z : uint64_of z < two64.
 Proof. unfold uint64_of, two64, two64z. pose proof (Z.mod_pos_bound z 18446744073709551616). lia. Qed.
 
